@@ -22,6 +22,7 @@ import (
 //@   effect wire "cookie " + c.Name + "=" + c.Value
 //@ extern func strings.EqualFold(s string, t string) (ok bool)
 //@   pure
+//@   ensures asciiLen: ok && (forall i in (0, len(s)) :: s[i] < 128) && (forall j in (0, len(t)) :: t[j] < 128) ==> len(s) == len(t)
 // Reading a header: deterministic functions of the header object and the name (the header is not
 // written between the calls inside one decoder method); Get returns the first of Values.
 //@ extern func (h http.Header) Values(key string) (vs []string)
